@@ -147,6 +147,7 @@ type VerifSnapshot struct {
 	SessionTime  bool
 	MsgEvent     int
 	HeartBtInt   time.Duration
+	HBDue        bool
 }
 
 func verifStateString(st sessionState) string {
@@ -195,6 +196,7 @@ func (v *VerifSession) Snapshot() VerifSnapshot {
 		InNil:       s.messageIn == nil,
 		MsgEvent:    len(s.messageEvent),
 		HeartBtInt:  s.HeartBtInt,
+		HBDue:       s.heartbeatDue,
 	}
 	if s.State != nil {
 		sn.LoggedOn = s.State.IsLoggedOn()
